@@ -390,12 +390,28 @@ class Interp:
                 val = lazy(self, v, name)
                 v.fields[name] = val
                 return val
+            if v.cls is not None and not name.startswith("__"):
+                ga = v.cls.lookup("__getattr__")
+                if ga is not None:
+                    # normal lookup failed: Python falls back to the class's __getattr__
+                    return self.call_func(ga, [v, name], {}, self_obj=v)
             raise PyRaise(ExcVal(AttributeError, (f"{v.tag} has no attribute {name}",)), origin="getattr")
         if isinstance(v, SuperProxy):
             f = v.obj.cls.lookup_after(v.after_cls, name) if isinstance(v.obj, Obj) else None
             if f is None:
                 if name == "__init__":
                     return PyFunc(lambda it, *a, **k: None, "object.__init__")
+                if name == "__getattribute__" and isinstance(v.obj, Obj):
+                    # object.__getattribute__(self, name): plain lookup without the __getattr__ fallback
+                    def plain(it, nm, o=v.obj):
+                        if nm in o.fields:
+                            return o.fields[nm]
+                        f2 = o.cls.lookup(nm) if o.cls is not None else None
+                        if f2 is not None:
+                            return it._bind(o, f2, nm)
+                        raise PyRaise(ExcVal(AttributeError, (f"{o.tag} has no attribute {nm}",)), origin="object.__getattribute__")
+
+                    return PyFunc(plain, "object.__getattribute__")
                 raise Unsupported(f"super().{name}")
             return BoundMethod(v.obj, f)
         if isinstance(v, ExcVal):
